@@ -153,6 +153,8 @@ func ruleCodecCaches(c *Ctx, rule string) {
 		for _, w := range writes[g] {
 			key := pkgKey(g.Pkg.Pkg.Path()) + "." + g.Name() + " written in " + fnLocalName(w.fn)
 			switch {
+			case w.key == nil && funcOfKey(w.val, nil, 0, map[ssa.Value]bool{}):
+				r.OK(rule, key, c.Pos(w.pos), "assigned a value built from constants only (lazy initialisation of a fixed table)")
 			case w.key == nil:
 				nBad++
 				r.Fail(rule, key, c.Pos(w.pos), "package variable "+g.Name()+" is assigned at run time ("+ex(w.val)+") and read by the codec ("+reads[g][0]+"): results depend on what was processed before")
@@ -200,7 +202,7 @@ func isReflectType(t types.Type) bool {
 // funcOfKey: v is built from the key (same value or same rendering), constants and static calls / operators
 // over such values only.
 func funcOfKey(v, key ssa.Value, depth int, seen map[ssa.Value]bool) bool {
-	if v == key || ex(v) == ex(key) {
+	if key != nil && (v == key || ex(v) == ex(key)) {
 		return true
 	}
 	if depth > 10 {
